@@ -68,6 +68,16 @@ def run(ctx, spec):
         back = guarded(hc.distances_from_coordinates, p, c)
         if back is None:
             return
+        # the round trip is judged against what the caller passed in: a vectorised entry point
+        # that overwrites its argument breaks "coordinates -> distance -> coordinates is the identity"
+        if not np.array_equal(c, keep):
+            bad("input-modified", f"hilbert:n{n}:vectorised-entry-modifies-its-argument", {"p": p},
+                keep[:4].tolist(), c[:4].tolist())
+            c = keep.copy()
+        h_in = h.copy()
+        c_again = guarded(hc.coordinates_from_distances, p, n, h_in)
+        if c_again is not None and not np.array_equal(h_in, h):
+            bad("input-modified", f"hilbert:n{n}:vectorised-entry-modifies-its-argument", {"p": p})
         ctx.count("cells_roundtrip", N)
         ctx.case_hashes((np.int64(n) << 58) ^ (np.int64(p) << 52) ^ h if p > 1 else np.zeros(0),
                         n_eval=N)
@@ -161,6 +171,9 @@ def run(ctx, spec):
         if d is None:
             return
         d = np.asarray(d)
+        if not np.array_equal(C, keepC):
+            bad("input-modified", f"hilbert:n{n}:vectorised-entry-modifies-its-argument", {"p": p},
+                keepC[:4].tolist(), C[:4].tolist())
         ctx.sig(f"n{n}", f"p{p}", "sampled")
         ctx.case_hashes((np.int64(n) << 58) ^ (np.int64(p) << 52) ^ d, n_eval=len(d))
         cb = guarded(hc.coordinates_from_distances, p, n, d.copy())
